@@ -150,6 +150,15 @@ fn extra_builders(tier: Tier) -> Vec<(String, DetBuilder)> {
             Err(e) => Ok(vec![("fit-error".into(), format!("{e}"))]),
         }
     })));
+    v.push(("gmm-nine-components".into(), Box::new(move || {
+        // enough components that per-component work would be worth spreading over workers
+        let ds = DatasetBase::from(big_blobs(29, 1800, 2));
+        let m = GaussianMixtureModel::params_with_rng(9, rand_xoshiro::Xoshiro256Plus::seed_from_u64(3)).max_n_iterations(8).reg_covariance(1e-3).fit(&ds);
+        match m {
+            Ok(m) => Ok(vec![("weights".into(), fbs(m.weights().iter())), ("means".into(), arr2(m.means())), ("precisions".into(), fbs(m.precisions().iter()))]),
+            Err(e) => Ok(vec![("fit-error".into(), format!("{e}"))]),
+        }
+    })));
     v.push(("gmm-large".into(), Box::new(move || {
         let ds = DatasetBase::from(big_blobs(8, nbig / 10, 3));
         let m = GaussianMixtureModel::params_with_rng(3, rand_xoshiro::Xoshiro256Plus::seed_from_u64(42)).n_runs(2).max_n_iterations(30).fit(&ds).map_err(es)?;
